@@ -192,6 +192,37 @@ def run_alone(role, calls):
     return [[outcome(s, c), sessions.probe(s)] for c in calls]
 
 
+def run_alone_fresh(h):
+    """The transcript of one history run alone in a fresh interpreter."""
+    import json
+    import pickle
+    import subprocess
+    import sys
+
+    code = ("import sys, json, pickle; sys.path.insert(0, '/verif/tools'); sys.path.insert(0, '/repo/src');"
+            "from props import c19; from lib.framework import canon; h = pickle.load(sys.stdin.buffer);"
+            "print(json.dumps(canon(c19.run_alone(h['role'], h['calls']))))")
+    p = subprocess.run([sys.executable, "-c", code], input=pickle.dumps(h), capture_output=True, timeout=600)
+    if p.returncode != 0:
+        raise RuntimeError("fresh-process baseline failed: " + p.stderr.decode()[-300:])
+    return json.loads(p.stdout.decode().strip().splitlines()[-1])
+
+
+def many_unknown_codes(role, base, n):
+    """n request/response cycles whose result codes are n DISTINCT values the enum does not list, then code 118."""
+    calls = []
+    for i in range(1, n + 2):
+        code = 118 if i == n + 1 else base + i
+        if role == CLIENT:
+            calls.append([C_EXT, b"1.2.3", [], []])
+            calls.append([RECV, msgs.pack([i, [8, [code, b"", b"", []], [], []], []])])
+        else:
+            calls.append([RECV, msgs.pack([i, [7, b"1.2.3", []], []])])
+            calls.append([sessions.S_EXTRESP, i, [], [], code, b"", b"", []])
+            calls.append([DRAIN, []])
+    return {"role": role, "calls": calls}
+
+
 def run_interleaved(hists, order):
     SHARED.clear()
     ss = [sessions.new_session(h["role"]) for h in hists]
@@ -265,13 +296,13 @@ def gen_custom_history(rng):
 class C19(SessionProp):
     id = "C19"
     prop_file = "Props/C19"
-    level = "other"
+    level = "proof"
     quick_n = 600
     thorough_n = 15000
     rule = (
         "seeded pairs of session histories (client/server in any combination): plain histories of the C08 generator and "
         "histories that register custom control (two different OIDs), filter and credential types (incl. duplicates of the same class, a different class for a taken id, and classes colliding with built-in ids) "
-        "and then send / receive messages carrying those types; 15% tees (two sessions of one role handed the identical bytearray objects holding the chunks of one stream); the two are run interleaved (random merge order) in "
+        "and then send / receive messages carrying those types; corpus pairs of 150-cycle histories with 300 distinct unknown result codes between them, compared with baselines run in fresh interpreters; 15% tees (two sessions of one role handed the identical bytearray objects holding the chunks of one stream); the two are run interleaved (random merge order) in "
         "one process and each alone on fresh sessions; transcripts (outcome, state, pending bytes after every call) "
         "must be identical; plain histories are also replayed on two independent instances of the extracted model; "
         "non-trivial = both histories have 2+ calls"
@@ -318,7 +349,13 @@ class C19(SessionProp):
         other = {"role": 1, "calls": [[REG_CTL, "X"], [REG_CTL, "X2"], [REG_FILTER, "filter"], [REG_FILTER, "filter2"], [REG_FILTER, "filter7"],
                                       [REG_AUTH, "auth2"], [REG_AUTH, "auth"], [REG_AUTH, "auth0"], [REG_CTL, "P"],
                                       [RECV, custom_request_bytes(random.Random(3), 1)]]}
-        return [
+        fresh = []
+        for ra, rb in ((0, 0), (0, 1), (1, 1)):
+            ha, hb = many_unknown_codes(ra, 30000, 150), many_unknown_codes(rb, 40000, 150)
+            n = len(ha["calls"]) + len(hb["calls"])
+            # all of A first, then B: B alone stays far below any process-wide limit, B after A does not
+            fresh.append({"hists": [ha, hb], "order": [0] * len(ha["calls"]) + [1] * len(hb["calls"]), "plain": True, "fresh": True})
+        return fresh + [
             {"hists": [a, b], "order": [0, 1, 0, 1], "plain": False},
             {"hists": [a, b], "order": [1, 0, 1, 0], "plain": False},
             {"hists": [dup, a], "order": [0, 1, 0, 1, 0, 0, 0, 0], "plain": False},
@@ -343,7 +380,9 @@ class C19(SessionProp):
             return "timeout"
         inter = canon(run_interleaved(c["hists"], c["order"]))
         for i, h in enumerate(c["hists"]):
-            alone = canon(run_alone(h["role"], h["calls"]))
+            # "alone" for the marked cases means alone in the PROCESS: state that only grows (an enum's member map,
+            # an intern table) looks the same to an interleaved and an isolated run made one after the other
+            alone = run_alone_fresh(h) if c.get("fresh") else canon(run_alone(h["role"], h["calls"]))
             if alone != inter[i]:
                 for j, (x, y) in enumerate(zip(alone, inter[i])):
                     if x != y:
